@@ -1,6 +1,6 @@
 (* C08 - Reports are well-formed, ordered and identical in both output formats.
    hl_lt / err_lt / status are generated from /repo's errors.py on every run. *)
-From NV Require Import Model.Base Model.Diag Model.Errors Proofs.ErrOrderProofs.
+From NV Require Import Model.Base Model.Diag Model.Errors Model.CatalogueExpected Proofs.ErrOrderProofs Proofs.LexTies.
 From Coq Require Import Sorting.Sorted Sorting.Permutation.
 
 (* Error.__lt__ is a strict weak order on diagnostics that carry at least one highlight:
@@ -33,6 +33,13 @@ Print Assumptions C08_displayed_sorted.
 Theorem C08_formats_agree : forall f, json_view f = human_view f.
 Proof. intros f. reflexivity. Qed.
 Print Assumptions C08_formats_agree.
+
+(* the catalogue regenerated from the source still contains every published entry, text unchanged *)
+Theorem C08_catalogue_unchanged :
+  forallb (fun kv => match assoc (fst kv) catalogue with Some t => str_eqb t (snd kv) | None => false end)
+          expected_catalogue = true.
+Proof. exact catalogue_tie. Qed.
+Print Assumptions C08_catalogue_unchanged.
 
 (* non-vacuity: two diagnostics on one line, one of them with two highlights *)
 Example C08_example :
